@@ -67,6 +67,45 @@ impl hash::Hash for Final {
     }
 }
 
+impl Drop for Final {
+    /// Drops the type iteratively.
+    ///
+    /// Types can be nested hundreds of thousands of levels deep (for example the target type
+    /// of a long chain of `injl` combinators), and the default recursive drop of the nested
+    /// `Arc`s would overflow the stack. This mirrors the `Drop` impls of `node::Node` and
+    /// `Incomplete`.
+    fn drop(&mut self) {
+        fn push_children(stack: &mut Vec<Arc<Final>>, bound: CompleteBound) {
+            match bound {
+                CompleteBound::Unit => {}
+                CompleteBound::Sum(left, right) | CompleteBound::Product(left, right) => {
+                    stack.push(left);
+                    stack.push(right);
+                }
+            }
+        }
+
+        if let CompleteBound::Unit = self.bound {
+            return;
+        }
+        let mut stack = Vec::new();
+        push_children(
+            &mut stack,
+            std::mem::replace(&mut self.bound, CompleteBound::Unit),
+        );
+        while let Some(child) = stack.pop() {
+            // If we hold the last reference, take the child's children before it is dropped,
+            // so that its own `drop` has nothing left to recurse into.
+            if let Some(mut child) = Arc::into_inner(child) {
+                push_children(
+                    &mut stack,
+                    std::mem::replace(&mut child.bound, CompleteBound::Unit),
+                );
+            }
+        }
+    }
+}
+
 impl fmt::Debug for Final {
     fn fmt(&self, f: &mut fmt::Formatter) -> fmt::Result {
         write!(
